@@ -317,6 +317,30 @@ func c11R4(c *Ctx, rule string) {
 			c.Bad(rule, name+":updates-counters", "-", "updates both FSM counters", fmt.Sprintf("%d stores", seen[name]))
 		}
 	}
+	// a successful restore always moves both counters (not only under a condition)
+	if rs := c.P.Fn("(*Raft).runFSM$restore"); rs != nil {
+		r := c.Run(&engine.Automaton{Fn: rs, Tracks: []engine.Track{
+			engine.Event("idx", func(in ssa.Instruction) bool {
+				st, ok := in.(*ssa.Store)
+				return ok && c.P.D(st.Addr) == idxCell
+			}),
+			engine.Event("term", func(in ssa.Instruction) bool {
+				st, ok := in.(*ssa.Store)
+				return ok && c.P.D(st.Addr) == termCell
+			}),
+		}})
+		n := 0
+		for _, s := range c.P.CallsIn(rs, engine.Is("(*deferError).respond")) {
+			if c.P.Arg(s.Instr, 0) != "nil" {
+				continue
+			}
+			n++
+			c.RequireAt(r, rule, "runFSM$restore:success-always-moves-counters", s.Instr, "every path that answers the restore with nil has stored the snapshot's index and term into the FSM counters", func(v engine.View) bool { return v.Seen("idx") && v.Seen("term") })
+		}
+		if n == 0 {
+			c.Bad(rule, "runFSM$restore:success-answer", c.P.Pos(rs.Pos()), "a respond(nil)", "none")
+		}
+	}
 	// ordering inside the closures: counter update only after the apply/restore
 	if as := c.P.Fn("(*Raft).runFSM$applySingle"); as != nil {
 		r := c.Run(&engine.Automaton{Fn: as, Tracks: []engine.Track{
